@@ -1,1 +1,2 @@
 import Proofs.C14
+import Proofs.C09
